@@ -22,3 +22,4 @@ import Brax.Props.C19
 import Brax.Props.C05
 import Brax.Props.C13
 import Brax.Props.C11
+import Brax.Props.C12
